@@ -400,6 +400,9 @@ impl Module {
         }
 
         let out = cx.wasm_module.finish();
+        // Put the custom sections back: emitting must not consume them, otherwise
+        // a second `emit_wasm` on the same module silently loses them.
+        self.customs = customs;
         log::debug!("emission finished");
 
         // let mut validator = Validator::new();
